@@ -571,6 +571,7 @@ class FakeTransport:
         self.policy = policy      # callable(frame_no, frame) -> list of
         #                           (delay, response bytes) deliveries
         self.closed = False
+        self.misrouted = 0        # frames whose replies go elsewhere
 
     def get_extra_info(self, name, default=None):
         return self._sock if name == "socket" else default
@@ -579,6 +580,19 @@ class FakeTransport:
         data = bytes(data)
         n = len(self.sent)
         self.sent.append(data)
+        # the socket is bound to the master's own ethertype and the XDP
+        # dispatcher stamps every returning frame with the ethertype its
+        # identification datagram carries: a frame identifying itself with
+        # another ethertype comes back on somebody else's socket
+        if len(data) >= 16 and data[2] == 0 and data[8:10] == b"\x02\x80":
+            et = int.from_bytes(data[12:14], "little")
+            if et != getattr(self.proto, "ethertype", 0x88A4):
+                self.misrouted += 1
+                if self.policy is not None:
+                    self.policy(n, data)
+                else:
+                    self.bus.process(data)
+                return
         if self.policy is not None:
             deliveries = self.policy(n, data)
         else:
